@@ -20,9 +20,9 @@ Section Statements.
 Variable lit : string -> outcome litres.
 Variable re_search : string -> string -> outcome reres.
 Variable nstr : node -> string.
-Variable vstr : list rnode -> string.
-Variable kw_handler : bool -> keyword -> string -> rnode -> ctx -> gen rnode.
-Variable creator : list pseg -> nat -> rnode -> ctx -> gen rnode.
+Variable vstr : list rval -> string.
+Variable kw_handler : bool -> keyword -> string -> rval -> ctx -> gen rval.
+Variable creator : list pseg -> nat -> rval -> ctx -> gen rval.
 (* the oracles answer; literal_eval raises nothing Nodes.typed_value does not catch *)
 Hypothesis lit_total : forall s, exists r, lit s = Ok r /\ (forall c, r <> LCrash c).
 Hypothesis re_total : forall p s, exists r, re_search p s = Ok r.
@@ -60,9 +60,9 @@ Definition lit0 (s : string) : outcome litres :=
   Ok (match py_int s with Some z => LVal (PInt z) | None => LFail end).
 Definition re0 (_ _ : string) : outcome reres := Ok (RMatch false).
 Definition nstr0 (_ : node) : string := "".
-Definition vstr0 (_ : list rnode) : string := "".
-Definition kw0 (_ : bool) (_ : keyword) (_ : string) (_ : rnode) (_ : ctx) : gen rnode := gnil.
-Definition cr0 (_ : list pseg) (_ : nat) (_ : rnode) (_ : ctx) : gen rnode := gerr (YPE Generic).
+Definition vstr0 (_ : list rval) : string := "".
+Definition kw0 (_ : bool) (_ : keyword) (_ : string) (_ : rval) (_ : ctx) : gen rval := gnil.
+Definition cr0 (_ : list pseg) (_ : nat) (_ : rval) (_ : ctx) : gen rval := gerr (YPE Generic).
 
 Definition inf (n : N) : info := mkinfo n None false None.
 Definition leaf (n : N) (v : pyval) : node := NLeaf (inf n) v.
